@@ -67,7 +67,8 @@ def rsNew (dbg : Bool) (B : Nat) (qv : QVector) : M RSSupportPlain := do
   let sbs ← if nextBlockId < rsqBlocksInSuperblock then setBlockCounters st.sbs nextBlockId st.bc
             else pure st.sbs
   let nsb := sbs.size / 4
-  let sentinel ← sub (nsb % 4294967296) 1
+  let nsb1 ← sub nsb 1
+  let sentinel := nsb1 % 4294967296
   let samples := st.samples.map (fun s => (if s.isEmpty then s.push 0 else s).push sentinel)
   return { superblocks := sbs, selectSamples := samples }
 
